@@ -2,5 +2,5 @@ package batchers
 
 const (
 	zzFileLen = 3
-	zzFiles   = 3
+	zzFiles   = 2
 )
